@@ -111,15 +111,17 @@ func (c *ReplayCache) IsDuplicate(data []byte, tag string) bool {
 			return true
 		}
 		return existingTag != tag
-	} else {
-		c.current[signature] = tag
 	}
 	if existingTag, ok := c.previous[signature]; ok {
+		// Carry the entry over with the tag it was recorded with, so that
+		// a replay with a different tag is reported every time.
+		c.current[signature] = existingTag
 		if existingTag == EmptyTag || tag == EmptyTag {
 			return true
 		}
 		return existingTag != tag
 	}
+	c.current[signature] = tag
 	return false
 }
 
